@@ -318,6 +318,25 @@ func (prop) Run(t *testing.T, tape *kernel.Tape, sc kernel.Scenario) *kernel.Res
 		if total > 36 {
 			idx = tape.Choose(total, "order-index")
 		}
+		// the requirement structure of the route belongs to the description: serving requests must not change it
+		changed := false
+		for i := range route.Authenticators {
+			wantNames := keys(s.alts[i])
+			if len(wantNames) == 0 {
+				wantNames = []string{""}
+			}
+			if !sameSet(route.Authenticators[i].Schemes, wantNames) {
+				changed = true
+			}
+		}
+		if changed {
+			var now []string
+			for i := range route.Authenticators {
+				now = append(now, strings.Join(route.Authenticators[i].Schemes, "&"))
+			}
+			env.Violate("C02/route-structure-changed", "alternatives-reordered-by-serving", "after %d served requests the route's alternatives are [%s], the description says %s", round, strings.Join(now, " | "), s.String())
+			break
+		}
 		var orderDesc []string
 		for i := range route.Authenticators {
 			ps := perAlt[i]
